@@ -28,6 +28,7 @@ POOL = [
     "y ~ (0 + f|g)", "y ~ (scale(x)|g)", "y ~ x + (x|g:h)", "y ~ (1|C(k))", "y ~ (center(x) + f|g) + (1|h)", "o ~ x + f",
     "f ~ scale(x)", "o[a] ~ x", "binary(f, 'b') ~ x", "y ~ binary(f) + x", "y ~ f + g + f:g:x", "y ~ bs(x, df=5, intercept=True):g",
     "y ~ minmax(x) + (minmax(z)|g)", "y ~ scale(xb)", "y ~ center(xb) + (scale(xb)|g)", "y ~ I(np.log(x) * z)", "y ~ {center(x) + z}", "y ~ {x / np.sqrt(z)}", "y ~ scale(np.log(x) + z) + I(z - np.exp(x / 10))", "y ~ I(f)", "y ~ 0 + up(f):x", "y ~ x + (x|up(g))", "y ~ (0 + I(f)|g)",
+    "y ~ binary(cs) + x", "binary(cs) ~ x", "y ~ cs", "y ~ (1|cs)",  # values that differ only in case
     "y ~ 0 + u", "y ~ x + (1|u)", "y ~ (0 + x|u) + f",  # an observation-level factor: as many levels as rows
 ]
 FIVE = [0, 1, 2, 3, 5]  # rows of c06.frame: all levels of f (b, c, a), both of g
@@ -193,6 +194,38 @@ def check_case(case, acc):
                     if got.shape != want.shape or not np.allclose(got, want, rtol=1e-9, atol=1e-12, equal_nan=True):
                         problems.append(("rows-permuted", f"{nm}.evaluate_new_data on the probe rows in order {list(p)} is not the row-permuted result of the probe"))
                         break
+        # a later frame holding unseen levels (mode 'silent'): its index labels and its row order play no role either
+        if f not in ENVONLY:
+            import formulae
+
+            old = formulae.config["EVAL_UNSEEN_CATEGORIES"]
+            try:
+                formulae.config["EVAL_UNSEEN_CATEGORIES"] = "silent"
+                pr = probe.copy()
+                for c_ in ("f", "g", "o", "cs"):
+                    pr[c_] = pr[c_].astype(object)
+                    pr.loc[1, c_] = "zz"
+                pr.loc[1, "k"] = 777
+                for nm, M in (("common", dm0.common), ("group", dm0.group)):
+                    if M is None:
+                        continue
+                    try:
+                        r0 = np.asarray(M.evaluate_new_data(pr).design_matrix, dtype=float)
+                    except Exception:
+                        continue  # (an unseen value this design cannot take, e.g. the success value of binary: not this check's business)
+                    for what, fr, rows in (("index [7, 3, 11]", pr.set_axis([7, 3, 11]), [0, 1, 2]), ("index [2, 2, 2]", pr.set_axis([2, 2, 2]), [0, 1, 2]), ("a string index", pr.set_axis(list("qpr")), [0, 1, 2]),
+                                           ("rows [2, 0, 1] keeping their labels", pr.iloc[[2, 0, 1]], [2, 0, 1]), ("rows [1, 2, 0] relabelled", pr.iloc[[1, 2, 0]].reset_index(drop=True), [1, 2, 0])):
+                        acc.calls += 1
+                        try:
+                            got = np.asarray(M.evaluate_new_data(fr).design_matrix, dtype=float)
+                        except Exception as e:
+                            problems.append(("no-effect", f"{nm}.evaluate_new_data on a frame with unseen levels (silent mode) and {what} raised {type(e).__name__}: {e}"))
+                            break
+                        if got.shape != r0[rows].shape or not np.allclose(got, r0[rows], rtol=1e-9, atol=1e-12, equal_nan=True):
+                            problems.append(("no-effect" if rows == [0, 1, 2] else "rows-permuted", f"{nm}.evaluate_new_data on a frame with unseen levels (silent mode): {what} changes the result"))
+                            break
+            finally:
+                formulae.config["EVAL_UNSEEN_CATEGORIES"] = old
     except Exception as e:
         acc.case(case, "build-raises", sample=False)
         acc.violation("design-exists", exc_sig(e), case, f"{f!r} on the base frame raised {type(e).__name__}: {e}")
